@@ -334,6 +334,9 @@ def report_rejections(chk, name, rejected, prefix=""):
         elif ev.get("e") == "Step" and ev.get("cp") != ev.get("ref") and not any(x == [-2] for x in ev["cp"] + ev["ref"]):
             # two observations of the implementation disagree with each other
             key = prefix + "string-ref-disagrees-with-string->list"
+        if prefix == "indextable:" and ev.get("e") == "Step" and max(ev["len"]) >= 128 and not key.endswith(":no-error"):
+            # whatever operation notices it first: the index table of a string of 128 or more characters
+            key = prefix + "index-lookup-on-string-of-128-or-more-characters"
         if id(evs) in first_oob and at > first_oob[id(evs)] and "negative-index-accepted" not in key:
             key = prefix + "after-out-of-bounds-write"
         bykey[key] = bykey.get(key, 0) + 1
